@@ -14,8 +14,10 @@ import (
 	"github.com/llir/llvm/asm"
 	"github.com/llir/llvm/ir"
 	"github.com/llir/llvm/ir/constant"
+	"github.com/llir/llvm/ir/enum"
 	"github.com/llir/llvm/ir/metadata"
 	"github.com/llir/llvm/ir/types"
+	"github.com/llir/llvm/ir/value"
 	"github.com/llir/llvm/vhook"
 
 	"verif/fw"
@@ -168,6 +170,43 @@ var c13mods = []c13mod{
 	{"K1-constructed-never-printed", c13K, false},
 	{"K2-constructed-printed-once", func() *ir.Module { m := c13K(); _ = m.String(); return m }, true},
 	{"P4-generated-all-kinds", c13generated, true},
+	{"K3-constructed-from-struct-literals-named", c13K3, true},
+}
+
+// c13K3 is a module assembled from struct literals (not through the New* constructors), every
+// value named, never printed: the result types of the instructions are not computed yet when the
+// printers start, and whatever computes and caches them must do so safely.
+func c13K3() *ir.Module {
+	m := ir.NewModule()
+	g := m.NewGlobalDef("g", constant.NewInt(types.I32, int64(c13salt)))
+	a := ir.NewParam("a", types.I32)
+	f := m.NewFunc("f", types.I32, a)
+	b := f.NewBlock("entry")
+	x := &ir.InstAdd{X: a, Y: constant.NewInt(types.I32, int64(c13salt))}
+	x.SetName("x")
+	y := &ir.InstMul{X: x, Y: x}
+	y.SetName("y")
+	p := &ir.InstAlloca{ElemType: types.I32}
+	p.SetName("p")
+	l := &ir.InstLoad{ElemType: types.I32, Src: g}
+	l.SetName("l")
+	z := &ir.InstXor{X: y, Y: l}
+	z.SetName("z")
+	c := &ir.InstICmp{Pred: enum.IPredEQ, X: z, Y: x}
+	c.SetName("c")
+	s := &ir.InstSelect{Cond: c, ValueTrue: z, ValueFalse: y}
+	s.SetName("s")
+	st := &ir.InstStore{Src: s, Dst: p}
+	b.Insts = append(b.Insts, x, y, p, l, z, c, s, st)
+	next := f.NewBlock("next")
+	b.Term = &ir.TermBr{Target: next}
+	ph := &ir.InstPhi{Incs: []*ir.Incoming{{X: s, Pred: b}}}
+	ph.SetName("ph")
+	cl := &ir.InstCall{Callee: f, Args: []value.Value{ph}}
+	cl.SetName("r")
+	next.Insts = append(next.Insts, ph, cl)
+	next.Term = &ir.TermRet{X: cl}
+	return m
 }
 
 // ---- thread bodies -------------------------------------------------------------------------------
@@ -457,7 +496,7 @@ func schedWorker(sc schedScenario, only []int) c13result {
 				d.What = "data race reported by the Go race detector on this schedule"
 				d.Report = rc.Report
 				if rc.InLibrary {
-					addViol("race/"+rc.Signature, d)
+					addViol("race/"+c13raceClass(rc.Signature), d)
 				} else {
 					res.Error = "race report outside the library (harness/scheduler defect): " + fw.Trunc(rc.Report, 1500)
 				}
@@ -751,4 +790,38 @@ func c13prelude() {
 	fw.Try(func() { _ = b.LLString() })
 	fw.Try(func() { _ = m.String() })
 	fw.Try(func() { asm.ParseString("prelude.ll", "define void @f() {\n  br label %nowhere\n}\n") })
+}
+
+// c13raceClass folds one family of race signatures: a lazily computed and cached result type
+// (`Typ`, filled by Type()) that is computed by a printer working BELOW function level
+// (Block.LLString, an instruction's LLString, a direct Type() query), i.e. outside the function
+// lock that Func.AssignIDs holds while it computes the types. Races between two function- or
+// module-level printers keep their precise signature.
+func c13raceClass(sig string) string {
+	i := strings.Index(sig, "/entries=")
+	if i < 0 {
+		return sig
+	}
+	write, entries := sig[:i], strings.Split(sig[i+len("/entries="):], "|")
+	lazy := false
+	for _, w := range strings.Split(strings.TrimPrefix(write, "write="), "+") {
+		if strings.HasSuffix(w, ").Type") || w == "ir/types.NewPointer" {
+			lazy = true
+		}
+	}
+	if !lazy {
+		return sig
+	}
+	below := false
+	for _, e := range entries {
+		switch e {
+		case "ir.(*Func).LLString", "ir.(*Module).WriteTo", "ir.(*Module).String":
+		default:
+			below = true
+		}
+	}
+	if below {
+		return "lazy-result-type-computed-below-function-level"
+	}
+	return sig
 }
